@@ -33,7 +33,7 @@ THEOREMS = [P + t for t in (
     "scan_end_to_end", "integer_read_exact", "log2_table_within_1ulp", "scan_number_end_to_end", "prefix_hex", "prefix_radix1", "prefix_radix2",
     "radix_parameter", "exponent_marker_spec", "print_digits_17",
     "wrap_free", "bignat_muladd_wrap_free", "bignat_div_wrap_free", "bignat_extract_wrap_free", "convert_wrap_free",
-    "convert_int32_in_range_partial",
+    "convert_int32_in_range", "convert_neg_branch_exponent_bound",
     "print17_roundtrip", "printed_text_accepted", "print17_roundtrip_text", "convert_reads_back", "extract_ldexp_reads_back", "tiny_shortcircuit_slack", "read_zero_exact",
 )]
 
@@ -419,7 +419,7 @@ def run(ctx):
         "double (compared on every p17 case); that every text of the %.17g shape is accepted by the scanner is proved (printed_text_accepted)",
         "libc_fixed0_exact: snprintf %.0f of an integer-valued double prints its exact decimal expansion (compared on every run)",
         "unsigned wrap-freedom of the BigNat routines is PROVED (wrap_free: the C-typed model, widths regenerated from the declarations and casts, equals "
-        "the unbounded model on every input); signed int: exponent, n*31+16 and base^4 proved in range, shamt*31 and 2*newn (bignat_extra) tested only",
+        "the unbounded model on every input); signed int32_t products PROVED in range for every accepted literal (convert_int32_in_range: exponent, n*31+16, base^4, and on the negative branch shamt*31, bignat_extra's capFactor*newn, 31*n in bignat_extract - bounded through the tiny short-circuit and the length limit; the positive-branch bignat_append growth is bounded by the huge short-circuit, model/correspondence only)",
         "ClampSafe is discharged by clamp_safe from the regenerated clamp constants (eeLimit, eeSat)",
     ])
 
